@@ -210,31 +210,63 @@ def check_impl(crate, b, res):
         if len(oks) != 1 or nt is None or not v.dominates(nt, oks[0][0]):
             out.append(fnd("C05.EXACT", v, "() is produced for an input other than null"))
     if cls == "char":
-        ob += 2
+        ob += 3
         oks = _ok_terms(v)
-        # Ok(first char) only where the second next() returned None
         nexts = [bb for bb, c in v.calls() if c.fn is not None and c.name == "next" and "Chars" in c.full]
         okc = False
-        if len(oks) == 1 and len(nexts) == 2:
-            first, second = sorted(nexts, key=lambda x: 0 if v.dominates(x, nexts[0]) and x != nexts[0] or x == nexts[0] and v.dominates(nexts[0], nexts[1]) else 1)
-            if not v.dominates(first, second):
-                first, second = second, first
+        first = second = None
+        if len(nexts) == 2:
+            first, second = (nexts[0], nexts[1]) if v.dominates(nexts[0], nexts[1]) else (nexts[1], nexts[0])
+        if len(oks) == 1 and first is not None:
             t = canon(v, oks[0][1])
-            is_none = [bb for bb, c in v.calls() if c.fn is not None and c.base() == "std::option::Option::is_none"]
-            if t[0] == "field" and t[2] == "Some" and t[1] == ("next", first) and is_none:
-                a = strip_refs(canon(v, v.origin(v.blocks[is_none[0]]["term"]["args"][0])))
-                i2 = v.switch_info(v.blocks[is_none[0]]["term"]["target"])
-                tt = v.edge_target(i2, True) if i2 and i2["kind"] == "bool" else None
-                if a == ("next", second) and tt is not None and v.dominates(tt, oks[0][0]):
-                    okc = True
+            from_first = t[0] == "field" and t[2] == "Some" and t[1] == ("next", first)
+            # the Ok block is only reachable when the second step returned None
+            proves_none = False
+            for bb2 in sorted(v.reach):
+                i2 = v.switch_info(bb2)
+                if not i2:
+                    continue
+                if i2["kind"] == "bool":
+                    src = canon(v, v.origin(v.blocks[bb2]["term"]["discr"]))
+                    if src[0] == "call" and call_name(v, src) == "std::option::Option::is_none" and strip_refs(src[3][0]) == ("next", second):
+                        tt = v.edge_target(i2, True)
+                        if tt is not None and v.dominates(tt, oks[0][0]):
+                            proves_none = True
+                elif i2["kind"] == "discr" and i2["place"] is not None:
+                    pl = strip_refs(canon(v, v.origin_place(i2["place"])))
+                    if pl == ("next", second):
+                        nt = v.variant_target(i2, "None")
+                        st_ = v.variant_target(i2, "Some")
+                        if nt is not None and nt != st_ and v.dominates(nt, oks[0][0]) and (st_ is None or oks[0][0] not in v.reachable(st_) or v.dominates(nt, oks[0][0])):
+                            proves_none = True
             src = canon(v, v.origin(v.blocks[first]["term"]["args"][0]))
-            if not term_mentions(src, lambda x: x[0] == "field" and x[1] == ("param", 1) and x[2] == "String"):
-                okc = False
+            on_input = term_mentions(src, lambda x: x[0] == "field" and x[1] == ("param", 1) and x[2] == "String")
+            okc = from_first and proves_none and on_input
         if not okc:
             out.append(fnd("C05.EXACT", v, "char does not return the first character exactly when there is no second one"))
-        # both domain errors exist (empty / more than one)
-        if sum(1 for s2 in bs.sites if s2.ek == "Unexpected") != 2:
+        # both domain errors exist (empty / more than one), and the long one names the string and its length in characters
+        unexp = [s2 for s2 in bs.sites if s2.ek == "Unexpected"]
+        if len(unexp) != 2:
             out.append(fnd("C05.BOUND", v, "char must report the empty string and the too long string separately"))
+        else:
+            okb = False
+            for bb2, c2 in v.calls():
+                if c2.fn is not None and "fmt::rt::Argument" in (c2.path or ""):
+                    a2 = canon(v, v.origin(v.blocks[bb2]["term"]["args"][0]))
+                    a2d = a2
+                    # `let len = 2 + iter.count();`
+                    if strip_refs(a2)[0] == "multi":
+                        for d in v.whole_defs(strip_refs(a2)[1]):
+                            if d[0] == "stmt":
+                                a2d = canon(v, v.origin_rv(d[3]["rv"], d[1]))
+                    if term_mentions(a2d, lambda x: x[0] == "call" and call_name(v, x) == "std::iter::Iterator::count"):
+                        okb = True
+                    if term_mentions(a2d, lambda x: x[0] == "call" and (call_name(v, x) or "").endswith("str::len")) or \
+                            term_mentions(a2d, lambda x: x[0] == "call" and (call_name(v, x) or "") == "std::string::String::len"):
+                        out.append(fnd("C05.BOUND", v, "the length reported for a too long string is its size in bytes, not its number of characters", bb2))
+                        okb = True
+            if not okb:
+                out.append(fnd("C05.BOUND", v, "the report for a too long string does not state its length in characters"))
     return out, ob, cls
 
 
